@@ -27,12 +27,37 @@ class BaseSliceAssumed(Contract):
         return out
 
 
-class UpdateMetaAssumed(Contract):
-    """ASSUMED: updatemeta() does not touch XORIG, YORIG, XCELL, YCELL, VGLVLS (it recomputes counts and TFLAG)"""
+class UpdateMetaProved(Contract):
+    """summary of updatemeta() used by the C11 proofs -- every clause is a post-condition PROVED by the updatemeta contracts of
+    contracts/C10.py: NLAYS / NROWS / NCOLS become the dimension lengths, TSTEP is unlimited, a DATE-TIME dimension of length 2
+    exists, the attributes that getVarlist / _updatetime / updatetflag may write are arbitrary afterwards, and EVERY OTHER
+    existing attribute (XORIG, YORIG, XCELL, YCELL, VGLVLS, VGTOP, ...) is the object it was (absent defaults that get set are
+    not modelled: no clause here reads them)"""
     prop = 'C11'
     target = IO + '::ioapi_base.updatemeta'
 
     def apply(self, I, func, args, kwargs):
+        from contracts import C10
+        me = func.bound if func.bound is not None else args[0]
+        I.ctx.trust_contract = getattr(I.ctx, 'trust_contract', set())
+        I.ctx.trust_contract.add(self.target + ' (proved: contracts updatemeta[...] of C10)')
+        d = me.attrs['dimensions']
+        listed = tuple(me.attrs.get('_ncattrs', ()))
+        for k in C10.UpdateMeta.WRITES:
+            if k in ('NLAYS', 'NROWS', 'NCOLS'):
+                dk = {'NLAYS': 'LAY', 'NROWS': 'ROW', 'NCOLS': 'COL'}[k]
+                if dk not in d:
+                    continue
+                me.attrs[k] = d[dk].attrs['_len']
+            else:
+                me.attrs[k] = Opaque('%s as left by updatemeta' % k)
+            if k not in listed:
+                listed += (k,)
+        me.attrs['_ncattrs'] = listed
+        if 'TSTEP' in d:
+            d['TSTEP'].attrs['_unlimited'] = True
+        if 'DATE-TIME' not in d:
+            d['DATE-TIME'] = dim_obj(I, 'DATE-TIME', 2)
         return None
 
 
@@ -49,7 +74,7 @@ class SliceOrigin(Contract):
     other origin are unchanged -- for windows given as integers (positive or negative) or unit-stride slices, any grid size"""
     prop = 'C11'
     target = IO + '::ioapi_base.sliceDimensions'
-    uses = [UpdateMetaAssumed()]
+    uses = [UpdateMetaProved()]
     max_paths = 100
 
     def __init__(self, dims, kind):
@@ -151,7 +176,7 @@ class SliceLevels(Contract):
     """ioapi sliceDimensions(LAY=window): the level edges of the result are the matching sub-range (one more edge than layers)"""
     prop = 'C11'
     target = IO + '::ioapi_base.sliceDimensions'
-    uses = [UpdateMetaAssumed()]
+    uses = [UpdateMetaProved()]
     max_paths = 100
 
     def __init__(self, kind):
@@ -252,7 +277,7 @@ class SliceTime(Contract):
     and, for regenerated flags, proved under C10 updatetflag; as one more clause here it made the solver time unstable.)"""
     prop = 'C11'
     target = IO + '::ioapi_base.sliceDimensions'
-    uses = [UpdateMetaAssumed()]
+    uses = [UpdateMetaProved()]
     max_paths = 120
     budget_s = 200
     # getTimes raises ValueError on an invalid flag in any row; which flags are valid is C12's business
@@ -516,11 +541,11 @@ def bounded_replay(p):
 
 META = dict(
     level='other',
-    technique='origin and level-edge arithmetic of ioapi sliceDimensions proved by pyvc with the base sliceDimensions executed in line (updatemeta as assumed summary, its count clauses are C10 obligations); time referencing by bounded run-time contract',
+    technique='origin and level-edge arithmetic of ioapi sliceDimensions proved by pyvc with the base sliceDimensions executed in line (updatemeta summarised by the post-conditions and the attribute frame proved under C10); time referencing by bounded run-time contract',
     text='Proved for grids of any size and windows given as integers (positive or negative) or unit-stride slices: XORIG/YORIG move by (first retained index) x cell size, cell sizes and the '
          'source are unchanged, VGLVLS of the result is the matching sub-range with one more edge than layers; for TSTEP windows (integer, unit-stride slice, index array of any length '
          'with repeats and negative entries) on a file with time flags of any length: the time flags and the data rows of the result are exactly the selected rows of the source, in order. Bounded: decoded times / SDATE / STIME / TSTEP of time windows (strftime-based), '
          'retained data, metadata coherence, pairs of dimensions.',
-    note='updatemeta is an ASSUMED summary in the proof (does not touch XORIG/YORIG/XCELL/YCELL/VGLVLS; its count clauses are proved under C10); the base sliceDimensions is no longer assumed: it is executed in line (and proved on its own under C02); floats are reals (A-REAL).',
+    note='updatemeta is summarised by what contracts/C10.py proves about it (counts, flags, and the frame: XORIG/YORIG/XCELL/YCELL/VGLVLS and every other existing attribute outside the written set are untouched); the base sliceDimensions is no longer assumed: it is executed in line (and proved on its own under C02); floats are reals (A-REAL).',
     assumptions=[sym.A_REAL],
     explanation='mixed: proof obligations for origin/level arithmetic + bounded exploration for time referencing')
